@@ -398,6 +398,8 @@ def result_cases(tier):
                                         # the initial parameters carry standard errors (as when they were read from the
                                         # optimized_parameters file of an earlier run)
                                         "init_stderr": (i + i // 8 + rep) % 3 == 0,
+                                        # the scheme was itself loaded from a project folder elsewhere (which is gone when the result is loaded)
+                                        "scheme_from_file": (i + i // 4 + rep) % 4 == 1,
                                     }
                                 )
                             i += 1
@@ -531,6 +533,22 @@ def prop_result(case):
 
     scheme = build_result_scheme(case)
     with sandbox() as td:
+        if case.get("scheme_from_file"):
+            from glotaran.io import load_scheme
+            from glotaran.io import save_dataset
+            from glotaran.io import save_model
+            from glotaran.io import save_parameters
+            from glotaran.io import save_scheme
+
+            proj = td / "project_elsewhere"
+            proj.mkdir()
+            with expect_ok("result.scheme_from_file_prepare"):
+                save_model(scheme.model, proj / "m.yml")
+                save_parameters(scheme.parameters, proj / "p.csv")
+                for lbl, ds in scheme.data.items():
+                    save_dataset(ds, proj / f"{lbl}.nc")
+                save_scheme(scheme, proj / "s.yml")
+                scheme = load_scheme(proj / "s.yml")
         try:
             with contextlib.redirect_stdout(io.StringIO()):
                 result = optimize(scheme, verbose=case["verbose"], raise_exception=True)
@@ -569,6 +587,8 @@ def prop_result(case):
         shutil.move(str(abs_folder), str(new_parent / "renamed"))
         if case["presaved"]:
             shutil.rmtree(td / "earlier")
+        if case.get("scheme_from_file"):
+            shutil.rmtree(td / "project_elsewhere")
         other = td / "elsewhere"
         other.mkdir()
         os.chdir(other)
@@ -582,7 +602,7 @@ def prop_result(case):
         n_hist = len(result.optimization_history.data)
     tags = [case["kind"], f"datasets-{case['n_datasets']}", f"weights-{case['weights']}", f"filter-{'none' if flt is None else '+'.join(flt)}",
             f"params-{case['options']['parameter_format']}", f"report-{case['options']['report']}", f"target-{case['target']}-{case['path_kind']}",
-            "presaved" if case["presaved"] else "fresh", "init-stderr" if case.get("init_stderr") else "init-no-stderr", "history-empty" if n_hist == 0 else "history-nonempty"]
+            "presaved" if case["presaved"] else "fresh", "init-stderr" if case.get("init_stderr") else "init-no-stderr", "scheme-loaded-from-file" if case.get("scheme_from_file") else "scheme-in-memory", "history-empty" if n_hist == 0 else "history-nonempty"]
     return {"nontrivial": case["n_datasets"] >= 2 and case["weights"] != "none", "tags": tags}
 
 
